@@ -18,10 +18,10 @@ package main
 
 import (
 	"fmt"
-	"os"
 	"go/constant"
 	"go/token"
 	"go/types"
+	"os"
 	"sort"
 	"strings"
 
@@ -626,7 +626,10 @@ func c16Limits(c *Ctx, p *Program) {
 				}
 				return f
 			}
-			isConst := func(v ssa.Value) bool { k, ok := v.(*ssa.Const); return ok && k.Value != nil && k.Value.Kind() == constant.Int }
+			isConst := func(v ssa.Value) bool {
+				k, ok := v.(*ssa.Const)
+				return ok && k.Value != nil && k.Value.Kind() == constant.Int
+			}
 			var field string
 			var reached *ssa.BasicBlock // successor taken when the count has reached the limit
 			switch {
